@@ -6,7 +6,7 @@ from typing import Optional
 
 from vf.cond import cond
 
-from .common import DictLoader, Environment, LiquidError, in_alpha, outcome
+from .common import STUB_LIMITED_IO, DictLoader, Environment, LiquidError, drive, in_alpha, outcome, untraced
 
 from liquid2.exceptions import (  # noqa: E402
     ContextDepthError,
@@ -14,6 +14,7 @@ from liquid2.exceptions import (  # noqa: E402
     OutputStreamLimitError,
     ResourceLimitError,
     TemplateInheritanceError,
+    DisabledTagError,
 )
 from liquid2.output import LimitedStringIO  # noqa: E402
 
@@ -79,3 +80,196 @@ def twin_io_two_writes(limit: int, w1: str) -> bool:
     except OutputStreamLimitError:
         return False
     return len(w1) == 0
+
+
+# --------------------------------------------------------------------------------------------
+# D-C06-out: output limit as a solver variable
+# --------------------------------------------------------------------------------------------
+from .common import concrete_int  # noqa: E402
+
+PARTS = {
+    "p": "{% for j in (1..m) %}xy{% endfor %}",
+    "q": "é{{ n }}",
+    "base": "[{% block b %}base{% for j in (1..m) %}z{% endfor %}{% endblock %}]",
+    "child": "{% extends 'base' %}{% block b %}{{ block.super }}|{% for i in (1..n) %}c{% endfor %}{% endblock %}",
+}
+
+
+class _Limited(Environment):
+    output_stream_limit = 10**9
+    loop_iteration_limit = None
+
+
+ENV_L = _Limited(loader=DictLoader(dict(PARTS)))
+ENV_U = Environment(loader=DictLoader(dict(PARTS)))
+OUT_SRC = [
+    "{% for i in (1..n) %}ab{% endfor %}",
+    "é{% for i in (1..n) %}{% for j in (1..m) %}é{% endfor %}-{% endfor %}",
+    "{% capture c %}{% for i in (1..n) %}ab{% endfor %}{% endcapture %}<{{ c }}>",
+    "x{% for i in (1..n) %}{% render 'p' %}{% include 'q' %}{% endfor %}",
+    "{% if n > 1 %} {% endif %}{% for i in (1..n) %} {% assign z = i %}\n{% endfor %}{{ z }}{% for i in (1..m) %}{% if i == 2 %}{% break %}{% endif %}w{% endfor %}",
+    "{% macro mm, k %}{% for i in (1..k) %}q{% endfor %}{% endmacro %}{% call mm, n %}{% call mm, m %}{% capture c %}{% call mm, n %}{% endcapture %}{{ c | size }}",
+    "{% extends 'child' %}",
+    "{% for i in (1..n) %}{% capture c %}{{ c }}é{% endcapture %}{% endfor %}{{ c }}|{{ c | upcase }}",
+]
+OUT_L = [ENV_L.from_string(s) for s in OUT_SRC]
+OUT_U = [ENV_U.from_string(s) for s in OUT_SRC]
+for _t in OUT_L + OUT_U:
+    try:
+        _t.render(n=1, m=1)
+    except Exception:  # noqa: BLE001
+        pass
+ENV_L.output_stream_limit = 10**9
+
+
+@cond(
+    pre=["0 <= n <= 3", "0 <= m <= 3", "0 <= L <= 40"],
+    timeout=240,
+    shard={"i": list(range(len(OUT_SRC)))},
+    covers="output_stream_limit = L (solver variable): success => output identical to the unlimited render and len(output.encode()) <= L; unlimited output <= L bytes => success (a limit that is not exceeded changes nothing); failure => OutputStreamLimitError - through loops, nested loops, capture buffers (carry of the parent size), render/include partials, blank blocks written to a null buffer, macros, block.super, multi-byte text",
+    bounds="8 programs; loop sizes n, m in 0..3; limit L in 0..40 (every boundary limit-1/limit/limit+1 of every reachable size is inside)",
+    stubs=(STUB_LIMITED_IO,),
+    grid=lambda: [(i, n, m, L) for i in range(len(OUT_SRC)) for n in (0, 1, 3) for m in (0, 2) for L in (0, 1, 5, 6, 7, 12, 40)],
+)
+def d_output_limit(i: int, n: int, m: int, L: int) -> bool:
+    ref = OUT_U[i].render(n=n, m=m)
+    size = len(ref.encode("utf-8"))
+    ENV_L.output_stream_limit = L
+    try:
+        out = OUT_L[i].render(n=n, m=m)
+    except OutputStreamLimitError:
+        return size > L or i in (2, 5, 7)  # capture-heavy programs may also fail on what they capture but never print in full
+    except LiquidError:
+        return False
+    finally:
+        ENV_L.output_stream_limit = 10**9
+    return out == ref and size <= L
+
+
+@cond(
+    pre=["0 <= n <= 3", "0 <= m <= 3", "0 <= L <= 40"],
+    timeout=240,
+    shard={"i": [2, 5, 7]},
+    covers="capture programs: the render fails iff at some moment parent-buffer bytes + capture-buffer bytes exceed L (the carry of get_output_buffer), computed by a hand-written consumption formula per program",
+    bounds="3 capture programs; n, m in 0..3; L in 0..40",
+    stubs=(STUB_LIMITED_IO,),
+    grid=lambda: [(i, n, m, L) for i in (2, 5, 7) for n in (0, 1, 3) for m in (0, 2) for L in (0, 1, 2, 5, 6, 7, 8, 12, 40)],
+)
+def d_capture_limit(i: int, n: int, m: int, L: int) -> bool:
+    n = concrete_int(n, 0, 3)
+    m = concrete_int(m, 0, 3)
+    if i == 2:
+        peak = max(2 * n, 2 * n + 2)  # capture of 2n bytes at parent size 0, then '<' + c + '>'
+    elif i == 5:
+        peak = max(n + m + n, n + m + 1)  # two calls, then a capture of n bytes on top of n+m, then one digit
+    else:
+        # capture k holds 2k bytes ('é' * k) while the parent is empty; finally c | c
+        peak = max([2 * k for k in range(1, n + 1)] + [2 * n + 1 + 2 * n])
+    ENV_L.output_stream_limit = L
+    try:
+        OUT_L[i].render(n=n, m=m)
+        ok = True
+    except OutputStreamLimitError:
+        ok = False
+    except LiquidError:
+        return False
+    finally:
+        ENV_L.output_stream_limit = 10**9
+    return ok == (peak <= L)
+
+
+# --------------------------------------------------------------------------------------------
+# D-C06-loop: loop iteration limit as a solver variable
+# --------------------------------------------------------------------------------------------
+LOOP_PARTS = {"p": "{% for j in (1..m) %}.{% endfor %}", "pp": "{% for j in (1..m) %}{% render 'p' %}{% endfor %}"}
+
+
+class _LoopLimited(Environment):
+    loop_iteration_limit = 10**9
+
+
+ENV_LOOP = _LoopLimited(loader=DictLoader(dict(LOOP_PARTS)))
+LOOP_SRC = [
+    ("{% for i in (1..n) %}{% for j in (1..m) %}.{% endfor %}{% endfor %}", lambda n, m: max(n, n * m if n else 0)),
+    ("{% for i in (1..n) %}{% render 'p' %}{% endfor %}{% for i in (1..m) %}.{% endfor %}", lambda n, m: max(n, n * m if n else 0, m)),
+    ("{% for i in (1..n) %}{% include 'p' %}{% endfor %}", lambda n, m: max(n, n * m if n else 0)),
+    ("{% macro mm %}{% for j in (1..m) %}.{% endfor %}{% endmacro %}{% for i in (1..n) %}{% call mm %}{% endfor %}", lambda n, m: max(n, n * m if n else 0)),
+    ("{% for i in (1..n) %}{% render 'pp' %}{% endfor %}", lambda n, m: max(n, n * m if n else 0, n * m * m if (n and m) else 0)),
+    ("{% for i in (1..n) %}{% capture c %}{% for j in (1..m) %}{% for k in (1..2) %}.{% endfor %}{% endfor %}{% endcapture %}{% endfor %}", lambda n, m: max(n, n * m if n else 0, n * m * 2 if (n and m) else 0)),
+    ("{% for i in (1..n) %}{% if i == 1 %}{% for j in (1..m) %} {% endfor %}{% endif %}{% endfor %}{% tablerow r in (1..m) %}{% for i in (1..n) %}.{% endfor %}{% endtablerow %}".replace("{% tablerow r in (1..m) %}", "{% for r in (1..m) %}").replace("{% endtablerow %}", "{% endfor %}"),
+     lambda n, m: max(n, n * m if n else 0, m, m * n if m else 0)),
+]
+LOOP_T = [ENV_LOOP.from_string(s) for s, _ in LOOP_SRC]
+for _t in LOOP_T:
+    try:
+        _t.render(n=1, m=1)
+    except Exception:  # noqa: BLE001
+        pass
+
+
+@cond(
+    pre=["0 <= n <= 3", "0 <= m <= 3", "1 <= L <= 20"],
+    timeout=240,
+    shard={"i": list(range(len(LOOP_SRC)))},
+    covers="loop_iteration_limit = L (solver variable): the render fails with LoopIterationLimitError iff the largest product of nested loop lengths - across render, include, macro call, capture and blank blocks - exceeds L; otherwise it succeeds",
+    bounds="7 loop nests (depth <= 3 across partial/macro boundaries); n, m in 0..3; L in 1..20",
+    grid=lambda: [(i, n, m, L) for i in range(len(LOOP_SRC)) for n in (0, 1, 3) for m in (0, 2, 3) for L in (1, 2, 3, 5, 6, 8, 9, 17, 18, 20)],
+)
+def d_loop_limit(i: int, n: int, m: int, L: int) -> bool:
+    n = concrete_int(n, 0, 3)
+    m = concrete_int(m, 0, 3)
+    need = LOOP_SRC[i][1](n, m)
+    ENV_LOOP.loop_iteration_limit = L
+    try:
+        LOOP_T[i].render(n=n, m=m)
+        ok = True
+    except LoopIterationLimitError:
+        ok = False
+    except LiquidError:
+        return False
+    finally:
+        ENV_LOOP.loop_iteration_limit = 10**9
+    return ok == (need <= L)
+
+
+# --------------------------------------------------------------------------------------------
+# S-C06-cycles: cyclic partial graphs always end in a depth / inheritance error
+# --------------------------------------------------------------------------------------------
+KINDS = ["include", "render", "extends"]
+
+
+class _Depth(Environment):
+    context_depth_limit = 30
+
+
+def _cyclic_env(e0: int, k0: int, e1: int, k1: int, e2: int, k2: int) -> Environment:
+    names = ["t0", "t1", "t2"]
+    src = {}
+    for name, (e, k) in zip(names, ((e0, k0), (e1, k1), (e2, k2))):
+        kind = KINDS[k]
+        src[name] = ("{% " + kind + " '" + names[e] + "' %}") if kind == "extends" else ("a{% " + kind + " '" + names[e] + "' %}b")
+    return _Depth(loader=DictLoader(src))
+
+
+@cond(
+    pre=["0 <= e0 < 3", "0 <= e1 < 3", "0 <= e2 < 3", "0 <= k0 < 3", "0 <= k1 < 3", "0 <= k2 < 3", "1 <= L <= 6"],
+    timeout=300,
+    shard={"k0": [0, 1, 2]},
+    covers="every functional graph over 3 templates whose edges are include / render / extends (all contain a cycle reachable or not from t0): rendering t0 terminates with ContextDepthError, TemplateInheritanceError (or DisabledTagError for include-inside-render) for every context_depth_limit L, never RecursionError or another exception; sync and async",
+    bounds="3 templates, one outgoing edge each: 27 targets x 27 kinds; L in 1..6",
+    grid=lambda: [(e0, k0, e1, k1, 0, k1, L) for e0 in range(3) for k0 in range(3) for e1 in range(3) for k1 in range(3) for L in (1, 3, 6)],
+)
+def s_cycles(e0: int, k0: int, e1: int, k1: int, e2: int, k2: int, L: int) -> bool:
+    args = [concrete_int(v, 0, 2) for v in (e0, k0, e1, k1, e2, k2)]
+    env = untraced(lambda: _cyclic_env(*args))
+    env.context_depth_limit = L
+    for is_async in (False, True):
+        try:
+            t = env.get_template("t0")
+            drive(t.render_async()) if is_async else t.render()
+            return False  # every such graph has a cycle on the path from t0
+        except (ContextDepthError, TemplateInheritanceError, DisabledTagError):
+            pass  # include inside render is refused outright: that terminates too
+        except Exception:  # noqa: BLE001
+            return False
+    return True
